@@ -832,7 +832,7 @@ func genC03(repo string) (string, error) {
 	slotHeader, slotVarTy := "", ""
 	if multi != nil {
 		ast.Inspect(multi.Body, func(n ast.Node) bool {
-			if fs, ok := n.(*ast.ForStmt); ok && fs.Init != nil && slotHeader == "" && strings.Contains(nodeText(fs.Init), "movingSourceSlot") {
+			if fs, ok := n.(*ast.ForStmt); ok && fs.Init != nil && slotHeader == "" && strings.Contains(exprText(fs.Cond), "EndTime") {
 				slotHeader = nodeText(fs.Init) + "; " + exprText(fs.Cond) + "; " + nodeText(fs.Post)
 			}
 			return true
